@@ -259,6 +259,24 @@ class Check(core.CheckBase):
         if reference[0] != 'ok':
             return [self.violation('canonical-rejected|HttpHeaderFieldValueNetworkErrorLogging', 'canonical NEL value rejected', case)]
         document = json.loads(canon.decode('ascii'))
+        # the members of the JSON document are the values of the parsed object (independent reading with json.loads)
+        try:
+            parsed = cls.parse_exact_size(canon)
+            for member, wanted in document.items():
+                component = getattr(parsed, member, None)
+                if component is None and wanted is not None and hasattr(parsed, member):
+                    found.append(self.violation('nel-member-lost|%s' % member, 'NEL member %s=%r of %r is absent from the parsed value' % (
+                        member, wanted, canon[:100]), case))
+                    continue
+                value = getattr(component, 'value', component)
+                if hasattr(value, 'total_seconds'):
+                    value = value.total_seconds()
+                if isinstance(wanted, (bool, int, float)) and hasattr(parsed, member) and value != wanted:
+                    found.append(self.violation('nel-member-differs|%s' % member, 'NEL member %s=%r of %r is parsed as %r' % (
+                        member, wanted, canon[:100], value), case))
+            self.stats['nel_members_compared'] += len(document)
+        except Exception:  # pylint: disable=broad-except
+            pass
         rng = random.Random('C18/nel/%s/%s' % (self.seed, case['number']))
         for _ in range(VARIANTS[self.tier]):
             items = list(document.items())
